@@ -1,6 +1,7 @@
 (* C13 — lemmas about the endpoint pool model (C13_EpModel.v). *)
 From Coq Require Import List Arith Bool Lia.
 From Dae Require Import C13_Spec C13_Model C13_EpModel C13_Proofs.
+From Dae.gen Require Import C13_Consts.
 Import ListNotations.
 
 (* ------------------------------------------------------------------------------------------ *)
@@ -266,13 +267,41 @@ Proof.
   - destruct (stale s u); [exact Hrm|]. now apply EI_reuse.
 Qed.
 
+(* Remove(own key, handle): the pooled endpoint is removed and closed; a stale handle is already closed
+   (it is not the pool entry of its key), so nothing happens *)
+Lemma ep_remove_stale s h e u :
+  EI s -> nth_error (p_handles s) h = Some e -> nth_error (p_eps s) e = Some u ->
+  p_pool s (u_key u) <> Some e -> ep_remove true s h = s.
+Proof.
+  intros H Hh Hn Hp. unfold ep_remove. rewrite Hh, Hn.
+  assert (Ho : opt_is (p_pool s (u_key u)) e = false).
+  { unfold opt_is. destruct (p_pool s (u_key u)) as [e0|] eqn:Hk; auto.
+    destruct (e0 =? e) eqn:E; auto. apply Nat.eqb_eq in E; subst. congruence. }
+  rewrite Ho. destruct (u_closed u) eqn:Hc; [now apply (ep_close_closed s e u)|].
+  exfalso. apply Hp. destruct H as (_&B). now apply (B e u Hn).
+Qed.
+
+Lemma EI_remove s h : EI s -> EI (ep_remove remove_checks_identity s h).
+Proof.
+  intros H. change remove_checks_identity with true. unfold ep_remove.
+  destruct (nth_error (p_handles s) h) as [e|] eqn:Hh; [|exact H].
+  destruct (nth_error (p_eps s) e) as [u|] eqn:Hn; [|exact H].
+  destruct (opt_is (p_pool s (u_key u)) e) eqn:Ho.
+  - apply EI_remove_close; auto.
+    destruct H as (A&_). unfold opt_is in Ho. destruct (p_pool s (u_key u)) as [e0|] eqn:Hk; [|discriminate].
+    apply Nat.eqb_eq in Ho; subst e0. destruct (A _ _ Hk) as (u0&H0&_&H2&_). rewrite Hn in H0. inversion H0; subst. exact H2.
+  - destruct (u_closed u) eqn:Hc; [now rewrite (ep_close_closed s e u)|].
+    exfalso. destruct H as (_&B). destruct (B e u Hn) as (_&B2). specialize (B2 Hc).
+    unfold opt_is in Ho. rewrite B2, Nat.eqb_refl in Ho. discriminate.
+Qed.
+
 Lemma EI_fold_eps (f : pstate -> nat -> pstate) :
   (forall s e, EI s -> EI (f s e)) -> forall l s, EI s -> EI (fold_left f l s).
 Proof. intros Hf l. induction l as [|x r IH]; intros s H; cbn; auto. Qed.
 
 Lemma EI_pstep s o : EI s -> EI (fst (pstep s o)).
 Proof.
-  intros H. destruct o as [k d g out|h out|h t|d| | |dt]; cbn [pstep].
+  intros H. destruct o as [k d g out|h out|h t|d| | |dt|h]; cbn [pstep].
   - now apply EI_goc.
   - destruct (nth_error (p_handles s) h) as [e|]; [|exact H].
     destruct (nth_error (p_eps s) e) as [u|] eqn:Hn; [|exact H].
@@ -310,6 +339,7 @@ Proof.
     destruct H0 as (A&_). unfold opt_is in Ho. destruct (p_pool s0 (u_key u)) as [e0|] eqn:Hk; [|discriminate].
     apply Nat.eqb_eq in Ho; subst e0. destruct (A _ _ Hk) as (u0&H0&_&H2&_). rewrite Hn in H0. inversion H0; subst. exact H2.
   - exact H.
+  - cbn [fst]. now apply EI_remove.
 Qed.
 
 Lemma EI_p0 : EI p0.
@@ -379,14 +409,14 @@ Lemma C13_never_resurrect_proof :
     r_ret (snd (pstep (prun ops) o)) = Some e -> handed_ok (fst (pstep (prun ops) o)) e.
 Proof.
   intros ops o e. pose proof (EI_prun ops) as H. set (s := prun ops) in *.
-  destruct o as [k d g out|h out|h t|d| | |dt]; cbn [pstep].
+  destruct o as [k d g out|h out|h t|d| | |dt|h]; cbn [pstep].
   2:{ destruct (nth_error (p_handles s) h) as [e0|]; [|discriminate].
       destruct (nth_error (p_eps s) e0) as [u|]; [|discriminate].
       destruct (u_dead u); [discriminate|]. destruct ((0 <? u_conn_closes u) || (out =? 1)); discriminate. }
   2:{ destruct (nth_error (p_handles s) h) as [e0|]; [|discriminate].
       destruct (nth_error (p_eps s) e0) as [u|]; [|discriminate].
       destruct (u_cs_closed u); discriminate. }
-  2-5: discriminate.
+  2-6: discriminate.
   unfold ep_goc.
   destruct (p_pool s k) as [e0|] eqn:Hk; [|apply create_handed].
   destruct (nth_error (p_eps s) e0) as [u|] eqn:Hn; [|apply create_handed].
@@ -436,7 +466,7 @@ Proof.
   assert (Hfold : forall (f : pstate -> nat -> pstate), (forall s e, p_dials (f s e) = p_dials s) ->
                   forall l s, p_dials (fold_left f l s) = p_dials s).
   { intros f Hf l. induction l as [|x r IH]; intros s0; cbn; auto. now rewrite IH, Hf. }
-  destruct o as [k d g out|h out|h t|d| | |dt]; cbn [pstep].
+  destruct o as [k d g out|h out|h t|d| | |dt|h]; cbn [pstep].
   - unfold ep_goc.
     destruct (p_pool s k) as [e0|]; [|apply Hc].
     destruct (nth_error (p_eps s) e0) as [u|]; [|apply Hc].
@@ -464,4 +494,43 @@ Proof.
     intros s0 e. destruct (nth_error (p_eps s0) e) as [u|]; auto.
     destruct (opt_is (p_pool s0 (u_key u)) e && _); auto. now rewrite Hcl.
   - cbn; lia.
+  - cbn [fst]. unfold ep_remove.
+    destruct (nth_error (p_handles s) h) as [e|]; [|lia].
+    destruct (nth_error (p_eps s) e) as [u|]; [|lia].
+    destruct remove_checks_identity; [destruct (opt_is _ e)|]; rewrite Hcl; cbn; lia.
 Qed.
+
+(* ------------------------------------------------------------------------------------------ *)
+(* Remove with a stale handle                                                                   *)
+(* ------------------------------------------------------------------------------------------ *)
+(* after any history (Remove calls from any flow at any time included): a Remove whose handle is not the
+   pool's entry of its key changes nothing at all; one whose handle is the entry takes exactly that endpoint
+   out of the pool and closes it *)
+Lemma C13_remove_stale_handle_proof :
+  forall ops h e u,
+    nth_error (p_handles (prun ops)) h = Some e -> nth_error (p_eps (prun ops)) e = Some u ->
+    (p_pool (prun ops) (u_key u) <> Some e -> fst (pstep (prun ops) (PRemove h)) = prun ops)
+    /\ (forall k, k <> u_key u -> p_pool (fst (pstep (prun ops) (PRemove h))) k = p_pool (prun ops) k).
+Proof.
+  intros ops h e u Hh Hn. pose proof (EI_prun ops) as H. cbn [pstep fst]. change remove_checks_identity with true. split.
+  - intros Hp. eapply ep_remove_stale; eauto.
+  - intros k Hk. unfold ep_remove. rewrite Hh, Hn.
+    assert (Hcl : forall s0, p_pool (ep_close s0 e) = p_pool s0).
+    { intros s0. unfold ep_close. destruct (nth_error (p_eps s0) e) as [u0|]; auto. destruct (u_closed u0); auto.
+      destruct (close_tail_core s0 u0) as (P1&_). unfold set_ep, set_eps. cbn [p_pool]. exact P1. }
+    destruct (opt_is (p_pool (prun ops) (u_key u)) e); rewrite Hcl; cbn [p_pool set_pool]; auto.
+    unfold fset. destruct (k =? u_key u) eqn:E; auto. apply Nat.eqb_eq in E. contradiction.
+Qed.
+
+(* the identity-less Remove (seeded defect): flow A's write on E1 fails and retires it, flow B dials E2 under
+   the same key, flow A's late Remove(key, E1) evicts E2 without closing it: E2 is neither pooled nor closed
+   (out of reach of janitor and Reset), and the next call dials a third endpoint while E2 is alive *)
+Definition remove_noid_ops : list pop := [PGoc 0 0 0 0; PWrite 0 1; PGoc 0 0 0 0].
+Lemma C13_remove_without_identity_refuted_proof :
+  let s := ep_remove false (prun remove_noid_ops) 0 in
+  (exists u, nth_error (p_eps s) 1 = Some u /\ u_failed u = false /\ u_closed u = false /\ u_dead u = false
+             /\ p_pool s (u_key u) = None)
+  /\ p_dials (fst (pstep s (PGoc 0 0 0 0))) = 3
+  /\ (let s2 := fst (pstep (fst (pstep s (PGoc 0 0 0 0))) PReset) in
+      exists u, nth_error (p_eps s2) 1 = Some u /\ u_conn_closes u = 0).
+Proof. vm_compute. repeat split; eexists; repeat split. Qed.
